@@ -1051,7 +1051,7 @@ func (p *BinaryProtocol) ReadAnyWithDesc(desc *TypeDescriptor, byteAsUint8 bool,
 		if et.Type() != elemType {
 			return nil, errDismatchPrimitive
 		}
-		ret := make([]interface{}, 0, size)
+		ret := make([]interface{}, 0, p.sizeHint(size))
 		for i := 0; i < size; i++ {
 			v, e := p.ReadAnyWithDesc(et, byteAsUint8, copyString, disallowUnknonw, useFieldName)
 			if e != nil {
@@ -1071,7 +1071,7 @@ func (p *BinaryProtocol) ReadAnyWithDesc(desc *TypeDescriptor, byteAsUint8 bool,
 			return nil, errDismatchPrimitive
 		}
 		if keyType == STRING {
-			m := make(map[string]interface{}, size)
+			m := make(map[string]interface{}, p.sizeHint(size))
 			for i := 0; i < size; i++ {
 				kv, e := p.ReadString(false)
 				if e != nil {
@@ -1085,7 +1085,7 @@ func (p *BinaryProtocol) ReadAnyWithDesc(desc *TypeDescriptor, byteAsUint8 bool,
 			}
 			ret = m
 		} else if keyType.IsInt() {
-			m := make(map[int]interface{}, size)
+			m := make(map[int]interface{}, p.sizeHint(size))
 			for i := 0; i < size; i++ {
 				kv, e := p.ReadInt(keyType)
 				if e != nil {
@@ -1389,7 +1389,7 @@ func (p *BinaryProtocol) ReadAny(typ Type, strAsBinary bool, byteAsInt8 bool) (i
 		if e != nil {
 			return nil, e
 		}
-		ret := make([]interface{}, 0, size)
+		ret := make([]interface{}, 0, p.sizeHint(size))
 		for i := 0; i < size; i++ {
 			v, e := p.ReadAny(elemType, strAsBinary, byteAsInt8)
 			if e != nil {
@@ -1404,7 +1404,7 @@ func (p *BinaryProtocol) ReadAny(typ Type, strAsBinary bool, byteAsInt8 bool) (i
 			return nil, e
 		}
 		if keyType == STRING {
-			ret := make(map[string]interface{}, size)
+			ret := make(map[string]interface{}, p.sizeHint(size))
 			for i := 0; i < size; i++ {
 				k, e := p.ReadString(false)
 				if e != nil {
@@ -1418,7 +1418,7 @@ func (p *BinaryProtocol) ReadAny(typ Type, strAsBinary bool, byteAsInt8 bool) (i
 			}
 			return ret, p.ReadMapEnd()
 		} else if keyType.IsInt() {
-			ret := make(map[int]interface{}, size)
+			ret := make(map[int]interface{}, p.sizeHint(size))
 			for i := 0; i < size; i++ {
 				k, e := p.ReadInt(keyType)
 				if e != nil {
@@ -1432,7 +1432,7 @@ func (p *BinaryProtocol) ReadAny(typ Type, strAsBinary bool, byteAsInt8 bool) (i
 			}
 			return ret, p.ReadMapEnd()
 		} else {
-			m := make(map[interface{}]interface{}, size)
+			m := make(map[interface{}]interface{}, p.sizeHint(size))
 			for i := 0; i < size; i++ {
 				k, e := p.ReadAny(keyType, strAsBinary, byteAsInt8)
 				if e != nil {
@@ -2055,6 +2055,16 @@ func (p *BinaryProtocol) next(size int) ([]byte, error) {
 	ret := (p.Buf)[p.Read:d]
 	p.Read = d
 	return ret, nil
+}
+
+// sizeHint bounds a container size read from the wire by the number of bytes left in the buffer.
+// Every element takes at least one byte, so a larger count can only come from malformed input:
+// the element loop will fail with EOF, and the count must not be used as an allocation size before that.
+func (p *BinaryProtocol) sizeHint(size int) int {
+	if left := len(p.Buf) - p.Read; size > left {
+		return left
+	}
+	return size
 }
 
 // BinaryEncoding is the implementation of Encoding for binary encoding.
